@@ -130,6 +130,9 @@ def check_property(prop, tier, seed, jobs=None, write=True):
                 unknown.append((r, o))
     drifted_items = {r["name"] for r in drift}
     lost = [k for k in lock if k not in seen_keys and not any(k.startswith(n + ":") for n in drifted_items)]
+    # obligations that live on an exceptional path exist only while the quick feasibility test cannot rule the path out
+    # (400 ms, e-matching only): when the path is pruned as infeasible -- a stronger result -- they are not generated
+    lost = [k for k in lost if not any(t in k for t in (":raises-only-when:", ":exc-unchanged:", ":exc-ensures:"))]
     # an obligation that is no longer generated because the function's SOURCE changed (e.g. a statement whose frame it
     # was has been deleted) means the sidecar was written for other code: drift, decided by the bounded twin.  Only an
     # obligation lost on unchanged source is a checker error.
